@@ -22,3 +22,5 @@ def run(prog, rep):
     r_close.run(prog, rep)
     r_err.run(prog, rep)
     r_order.run_order(prog, rep)
+    from ..rules import r_close as _rc
+    _rc.run_fapl(prog, rep)
